@@ -100,6 +100,9 @@ def to_real(v):
         return [to_real(x) for x in v]
     if isinstance(v, dict) and "__rec__" in v:
         rn = v["__rec__"]
+        if rn in RECORD_CLASSES and RECORD_CLASSES[rn][0] == "builtin":
+            import types
+            return types.SimpleNamespace(**{k: to_real(x) for k, x in v.items() if k != "__rec__"})
         if rn in RECORD_CLASSES:
             rel, cn = RECORD_CLASSES[rn]
             cls = getattr(repo_import(rel), cn)
